@@ -3,6 +3,7 @@
 From Coq Require Import ZArith List Bool.
 From I18n Require Import Lib.Outcome Model.IntExpr Model.PluralForms Generated.Languages Generated.PyConsts
   Proofs.Codomain Proofs.Period Proofs.PluralForms Proofs.PluralFormsNoCrash.
+From I18n Require Import Lib.PySrc Model.PluralFormsPy Model.PluralFormsHead Generated.PluralsSrc Proofs.PluralsSrc.
 Import ListNotations.
 Local Open Scope Z_scope.
 
@@ -148,4 +149,69 @@ Definition s_pl : list N :=   (* "x nplurals=3; plural=n%10==1 ? 0 : 1; y" *)
   [120;32;110;112;108;117;114;97;108;115;61;51;59;32;112;108;117;114;97;108;61;110;37;49;48;61;61;49;32;63;32;48;32;58;32;49;59;32;121]%N.
 Example C07_ex : check_plurals_core 0 {| pf_value := s_pl; pf_has_plurals := true; pf_expected := [2]; pf_correct := None |}
   = Ok ([DLeadingJunk [120;32]%N; DTrailingJunk [32;121]%N; DIncorrectN 3 2; DNever 2 3], None).
+Proof. vm_compute. reflexivity. Qed.
+
+(* ------------------------------------------------------------------------------------------------------------------
+   Source tie.  Generated/PluralsSrc.v is the statement-by-statement translation (tools/gen/gen_plurals_src.py, fail-closed,
+   re-run on every check) of gettext.parse_plural_expression, gettext.parse_plural_forms and the WHOLE method
+   Checker.check_plurals of the working tree.  The theorems say that this translation, run with the model's search
+   function / int() / expression parser / evaluators as the external operations (MW) and ANY check context (header values,
+   language, template flag, messages), equals the hand-written model that all the theorems above are about.  A behavioural
+   edit of that Python code changes the generated definitions and these no longer compile.
+   embed: Ok v = the value returned, Err = PluralFormsSyntaxError raised, Crash = the foreign exception raised. *)
+Theorem C07_source_tie_regex : src_plural_forms_regex = pf_regex_text.
+Proof. exact src_regex_eq. Qed.
+Print Assumptions C07_source_tie_regex.
+
+(* parse_plural_expression, for EVERY world: LexingError / ParsingError of the parser become the module's syntax error *)
+Theorem C07_source_tie_parse_expression : forall (L G E M : Type) (W : pl_world E M L G) s,
+  src_parse_plural_expression W s =
+  match w_parse W s with
+  | SRet e => SRet e
+  | SNone => SRaise (XCrash CTypeError)
+  | SAssert => SAssert
+  | SRaise XLexing | SRaise XParsing => SRaise XPluralForms
+  | SRaise x => SRaise x
+  end.
+Proof. exact src_parse_plural_expression_spec. Qed.
+Print Assumptions C07_source_tie_parse_expression.
+
+Theorem C07_source_tie_parse_plural_forms : forall L G maxd values language get_pf is_template file obsolete msgid_plural translated msgstr_plural s,
+  src_parse_plural_forms_nonstrict (MW L G maxd values language get_pf is_template file obsolete msgid_plural translated msgstr_plural) s
+  = embed (parse_plural_forms maxd s).
+Proof. exact src_parse_plural_forms_nonstrict_eq. Qed.
+Print Assumptions C07_source_tie_parse_plural_forms.
+
+Theorem C07_source_tie_parse_plural_forms_strict : forall L G maxd values language get_pf is_template file obsolete msgid_plural translated msgstr_plural s,
+  src_parse_plural_forms_strict (MW L G maxd values language get_pf is_template file obsolete msgid_plural translated msgstr_plural) s
+  = embed (parse_plural_forms_strict maxd s).
+Proof. exact src_parse_plural_forms_strict_eq. Qed.
+Print Assumptions C07_source_tie_parse_plural_forms_strict.
+
+(* the whole method: Model/PluralFormsHead.check_plurals = the field lookup, the scan of the messages and the tags about a
+   missing field around check_plurals_core; tags as (name variant, arguments), ctx.plural_preimage as the second component *)
+Theorem C07_source_tie_check_plurals : forall L G maxd values language get_pf is_template file obsolete msgid_plural translated msgstr_plural,
+  src_check_plurals (MW L G maxd values language get_pf is_template file obsolete msgid_plural translated msgstr_plural)
+  = embed (check_plurals maxd (ctx_of L G values language get_pf is_template file obsolete msgid_plural translated msgstr_plural)).
+Proof. exact src_check_plurals_eq. Qed.
+Print Assumptions C07_source_tie_check_plurals.
+
+(* in the scope of the property (a non-template catalog with one Plural-Forms value v): what the method emits is, after the
+   tag about inconsistent msgstr[] counts, the image of check_plurals_core's diagnostics under tag_of_diag - the -unused-
+   variant of a tag name iff no message has a plural, v as the argument of the syntax / unusual tags - and what it
+   leaves in ctx.plural_preimage is check_plurals_core's preimage table *)
+Theorem C07_source_tie_core : forall L G maxd values language get_pf is_template file obsolete msgid_plural translated msgstr_plural v,
+  values = [v] -> is_template = false ->
+  src_check_plurals (MW L G maxd values language get_pf is_template file obsolete msgid_plural translated msgstr_plural) =
+  let c := ctx_of L G values language get_pf is_template file obsolete msgid_plural translated msgstr_plural in
+  let '(hp, counts) := scan_msgs (pc_msgs c) false [] in
+  embed_core (if zlen counts >? 1 then [TInconsistent (inconsistent_args counts)] else []) hp v
+    (check_plurals_core maxd {| pf_value := v; pf_has_plurals := hp; pf_expected := counts; pf_correct := pc_correct c |}).
+Proof. exact src_check_plurals_core_eq. Qed.
+Print Assumptions C07_source_tie_core.
+
+(* non-vacuity: the translated method run on the header value of C07_ex, one translated plural message with two msgstr[] *)
+Example C07_src_ex :
+  src_check_plurals (MW unit bool 0 [s_pl] None (fun _ => None) false [true] (fun _ => false) (fun _ => Some []) (fun g => g) (fun _ => [(0, []); (1, [])]))
+  = SRet ([TLeadingJunk [120;32]%N; TTrailingJunk [32;121]%N; TIncorrectN 3 2; TCodomain true (MNever (2, 3, 5))], None).
 Proof. vm_compute. reflexivity. Qed.
